@@ -12,7 +12,12 @@ def gen_case(rng, i):
     nv = rng.choice([1, 2, 3, 4, 5])
     vs = gen.VARS6[6 - nv:]
     inv, outv = vs[: max(1, nv // 2)], vs[max(1, nv // 2):]
-    shape = ["bounded", "bounded", "halfopen", "random", "infeasible", "free_var", "empty", "disconnected_infeasible"][i % 8]
+    shape = ["bounded", "bounded", "halfopen", "random", "infeasible", "free_var", "empty", "disconnected_infeasible",
+             "presolve_trap", "vacuous_row"][i % 10]
+    if shape == "presolve_trap":
+        nv = 3
+        vs = gen.VARS6[3:]
+        inv, outv = vs[:1], vs[1:]
     a, g = [], []
     if shape == "bounded":
         a = gen.bounded_list_raw(rng, inv)
@@ -33,6 +38,25 @@ def gen_case(rng, i):
         g = gen.bounded_list_raw(rng, outv[:1]) if outv else []
     elif shape == "empty":
         a, g = [], []
+    elif shape == "presolve_trap":
+        # x - s <= -a, -x <= b, -x + s <= c with s a positive combination of two outputs: s is unbounded above, and on this
+        # shape the solver's presolve often reports "infeasible" first, so the second solve is what answers
+        x, y, z = vs
+        s1, s2, sg = rng.choice([1, 2]), rng.choice([1, 2]), rng.choice([1, -1])
+        lo = rng.randint(-3, 3)
+        g = [({x: 1, y: -sg * s1, z: -sg * s2}, -lo), ({x: -1}, rng.randint(0, 3)), ({x: -1, y: sg * s1, z: sg * s2}, lo + rng.randint(0, 4))]
+        rng.shuffle(g)
+        if rng.random() < 0.5:
+            inv, outv = [x], rng.sample([y, z], 2)
+        k = rng.randint(1, 3)
+        trap = {y: k * s1 * sg, z: k * s2 * sg}
+    elif shape == "vacuous_row":
+        # ordinary rows together with a row that has no variable (what  x + 1 <= x  leaves): a contradiction when its constant is negative
+        a = gen.bounded_list_raw(rng, inv)
+        g = gen.bounded_list_raw(rng, outv) if outv else []
+        free = ({}, rng.choice([-1, -2, -0.5, 0, 2]))
+        side = g if (rng.random() < 0.6 or not a) else a
+        side.insert(rng.choice([0, len(side), rng.randint(0, len(side))]), free)
     else:
         # the contradiction lives in a block of constraints that shares no variable with the objective
         a = gen.bounded_list_raw(rng, inv[:1])
@@ -46,6 +70,9 @@ def gen_case(rng, i):
     objs.append(({rng.choice(vs): 1}, True, "bounds"))
     objs.append(({rng.choice(vs): 1}, False, "bounds"))
     objs.append(({rng.choice(inv): rng.choice([-1, 1])}, rng.random() < 0.5, "list"))
+    if shape == "presolve_trap":
+        objs = [(trap, True, "contract"), ({v: -c for v, c in trap.items()}, False, "contract"), (trap, True, "list"),
+                (trap, False, "contract"), ({v: -c for v, c in trap.items()}, True, "list")] + objs[:2]
     return {"c": {"inv": inv, "outv": outv, "a": a, "g": g}, "objs": objs, "shape": shape}
 
 
@@ -73,7 +100,7 @@ def main(tier, replay=None):
     return lpev.run(
         PROP, tier, gen_cases(tier), run_case,
         "contracts (bounded boxes, half-open, random feasible, planted contradiction, a declared variable no constraint mentions, no "
-        "constraint at all, a contradiction disconnected from the objective) x objectives with <= 3 small integer coefficients, both "
+        "constraint at all, a contradiction disconnected from the objective, shapes on which the solver's presolve misreports an unbounded problem, rows without variables among ordinary rows) x objectives with <= 3 small integer coefficients, both "
         "directions, through PolyhedralIoContract.optimize, get_variable_bounds and TermList.optimize; TLC checks an optimality "
         "certificate (feasible primal point, exact box-free dual), an unboundedness certificate (point + recession ray) or a Farkas "
         "infeasibility certificate and compares the recorded answer; non-trivial = certified class and answer agree",
